@@ -12,4 +12,5 @@ CONSTANTS
   Depth = 4
   ProbesLast = FALSE
   Extras = {"reap"}
+  ActorKinds = {"begin", "stmt", "fail", "set", "prep", "copyin", "copyin2", "big", "slow", "local", "reset1", "commit", "copydone", "copyfail"}
 INVARIANT Emit
